@@ -14,6 +14,18 @@ CHECKS = {
         text="Solver-decided within bounds, not a proof. (A) Typstyle::format_source_range with its real callees trim_range, count_spaces_after_last_newline and the cover search is executed from MIR over every text of up to N code points (4 quick / 6 thorough) and every (start,end) with start on a char boundary and end on a boundary or anywhere beyond the text: z3 shows no panic, that the cover search receives exactly the blank-trimmed range and that nest() receives the spaces after the last LF. (B) the cover search and converter dispatch are executed over abstract trees (root Markup, up to 4/6 nodes, symbolic kinds, leaf lengths, error flags) for any trimmed range inside the text: an Ok result names a non-erroneous Markup/Expr/Pattern node whose range contains the trimmed request, converted in the mode of its nearest Markup/CodeBlock/Equation ancestor; a refusal implies a syntax error in the tree. That splicing the result re-parses to an equivalent tree needs the parser as oracle and is NOT claimed.",
         note="Trusted: mirsym encoder; std string contracts; typst-syntax node/LinkedNode contracts with kind tables extracted from the real crate; abstract trees over-approximate parser output; converters, AttrStore::new and the renderer opaque; assume-guarantee split between (A) and (B).",
         ref="DESIGN.md §5 C13"),
+    'C14': dict(
+        text="Solver-decided over bounded worlds, not a proof. The real MIR of main, execute, format_one, format_many, format_all (+closures), format_debug, get_input, write_back, is_hidden, to_config, bitor_assign and report is executed against a symbolic file-system world: stdin, file lists of up to K files (2 quick / 3 thorough) and format-all over every directory tree of up to 2-3 (quick) / 4 (thorough) entries, every entry file/dir/other, hidden or not, any extension, readable or not, erroneous or not, changed or not; every flag combination clap admits and all 64-bit option values. z3 decides on every path that with --check nothing is written, no source/formatted text reaches stdout, and exit status is 1 iff an eligible readable well-formed input differs from F(input) or an eligible input cannot be read. Counterexamples are rebuilt as real directory trees and replayed on the real binary.",
+        note="Trusted: mirsym encoder; environment contracts for fs::read_to_string/fs::write/walkdir/stdin/print/log/anyhow/clap (models_env.py); formatter = uninterpreted F with Err iff erroneous; directory-listing errors, symlink loops, larger trees, -v/-q in quick tier and --ast/--pretty-doc are outside the claim; mtime follows from W=empty under the structural fact (checked in the same MIR dump) that fs::write is the only mutator called.",
+        ref="DESIGN.md §5 C14"),
+    'C15': dict(
+        text="Solver-decided over bounded worlds, not a proof. Same units and worlds as C14 with check=false, `-i` lists and format-all, write failures symbolic: z3 decides on every path that the set of files written is exactly {eligible & readable & well-formed & changed}, each once, with exactly F(content) for the mapped options; every eligible input is attempted whatever happened to earlier ones; any read/write failure gives a non-zero exit status and no failure gives 0. Eligibility for format-all: regular file, extension typ, not hidden, no hidden directory strictly between it and the given directory; the directory's own name is irrelevant.",
+        note="Trusted: as C14. 'A second run is a no-op' follows from the write-set obligation on the post-world under F(F(c))=F(c) (C03, assumed). Write failures cannot be replayed natively as root; such models are reported inconclusive if nothing else reproduces.",
+        ref="DESIGN.md §5 C15"),
+    'C16': dict(
+        text="Solver-decided over bounded worlds, not a proof. CLI MIR as C14/C15: every library call receives Config{max_width: column, tab_spaces: tab_width, reorder_import_items: flag, blank_lines_upper_bound: 2} for all 64-bit values; in stdout mode the stdout writes are exactly print!(\"{}\", F(c_i)) (c_i itself if erroneous) for readable inputs in argument order and nothing else; in-place/format-all write F(c_i). Library MIR: format_with_width(c,w) = F(c, Config{max_width:w, defaults}) or c if erroneous; format_content/format_source funnel into format_source_inspect. Counterexamples replayed by comparing the real binary's output with the library's output (native driver) for the same options.",
+        note="Trusted: as C14; F uninterpreted - that all front-ends compute the same F rests on the structural fact that they all call Typstyle::format_source_inspect/format_content (checked in the dump).",
+        ref="DESIGN.md §5 C16"),
 }
 
 NOT_APPLICABLE = {
